@@ -1687,14 +1687,17 @@ func (p *parser) scanCharSet(caseInsensitive, scanOnly bool) (*CharSet, error) {
 
 	var cc *CharSet
 	if !scanOnly {
-		cc = &CharSet{}
+		// While members are still being added the set is kept marked as negated: canonicalize
+		// (called by every add) only rewrites a NON-negated set into one of its negated normal
+		// forms (e.g. [\x00-\x60b-\x{10FFFF}] => [^a]), and members added after such a rewrite
+		// would land in the wrong set.  The real flag is restored once the set is complete.
+		cc = &CharSet{negate: true}
 	}
 
+	negate := false
 	if p.charsRight() > 0 && p.rightChar(0) == '^' {
 		p.moveRight(1)
-		if !scanOnly {
-			cc.negate = true
-		}
+		negate = true
 	}
 
 	for ; p.charsRight() > 0; firstChar = false {
@@ -1902,6 +1905,12 @@ func (p *parser) scanCharSet(caseInsensitive, scanOnly bool) (*CharSet, error) {
 
 	if !closed {
 		return nil, p.getErr(ErrUnterminatedBracket)
+	}
+
+	if !scanOnly {
+		// the set is complete: now it is safe to normalize it
+		cc.negate = negate
+		cc.canonicalize()
 	}
 
 	if !scanOnly && caseInsensitive {
